@@ -97,9 +97,15 @@ def strip(r):
 
 # events ------------------------------------------------------------------------------
 
+SHADOW_NAMES = ["clear", "copy", "fromkeys", "get", "items", "keys", "pop", "popitem", "search", "search_all", "setdefault", "update", "values"]
+
+
 def alphabet(tier, depth_left=None):
     if tier == "deep":
         return ["a", "_p", "items"], [0, V_C1, V_LC]
+    if tier.startswith("shadow:"):
+        # an entry named like a dict/Container method (the container's __dict__ is the container itself, so it shadows the method)
+        return [tier.split(":", 1)[1], "a"], [0, V_C1]
     keys = INFO["bounds"][tier]["keys"]
     vals = [0, "s", V_LIST, V_C1, V_LC] if tier == "quick" else [0, 1, "s", V_LIST, V_C0, V_C2, V_CC, V_LC]
     return keys, vals
@@ -389,6 +395,10 @@ def units(tier):
     if tier == "thorough":
         for ev in enabled({}, "deep"):
             us.append({"kind": "bfs", "first": ev, "alpha": "deep", "depth": 4})
+    for name in SHADOW_NAMES:
+        for ev in enabled({}, "shadow:" + name):
+            if ev[0] in ("set", "setattr") and ev[1] == name:
+                us.append({"kind": "bfs", "first": ev, "alpha": "shadow:" + name, "depth": 2})
     us.append({"kind": "laws"})
     us.append({"kind": "search"})
     n = INFO["bounds"][tier]["hex_len"]
